@@ -295,8 +295,8 @@ func (x *vc) frameObligations(fr *frame, out *state, fc *funcContract, pos strin
 		if !ok || cur == x.heap0[k] {
 			continue
 		}
-		if strings.HasPrefix(k, "GVIS_") {
-			continue // ghost state of map iterations: not program memory
+		if strings.HasPrefix(k, "GVIS_") || strings.HasPrefix(k, "GCNT_") {
+			continue // ghost state (map iterations, call counters): not program memory
 		}
 		refs := allowed.arrays[k]
 		if len(refs) == 1 && refs[0] == "*" {
